@@ -47,10 +47,13 @@ type FuncContract struct {
 	HasMod   bool
 	Lets     []Clause // Label = name
 	Loops    map[int][]Clause
+	Foreach  []Clause // templates with $src / $dst, instantiated for loops of the append-each idiom
 	Trusted  bool
 	File     string
 	Line     int
 	Attrs    map[string]string
+	Cases    map[string]*FuncContract // per-case sections (`case T`) for the generated type switches
+	parent   *FuncContract
 }
 
 type PureFunc struct {
@@ -97,7 +100,7 @@ var (
 	reGhost     = regexp.MustCompile(`^ghost\s+var\s+(\w+)\s+([\w.*\[\]]+)\s*$`)
 	reLet       = regexp.MustCompile(`^let\s+(\w+)\s*:=\s*(.*)$`)
 	keywordsSet = map[string]bool{"package": true, "func": true, "trusted": true, "requires": true, "ensures": true, "modifies": true,
-		"let": true, "loop": true, "pure": true, "pred": true, "uninterp": true, "ghost": true, "lemma": true, "attr": true}
+		"let": true, "loop": true, "foreach": true, "case": true, "pure": true, "pred": true, "uninterp": true, "ghost": true, "lemma": true, "attr": true}
 )
 
 type rawClause struct {
@@ -183,6 +186,20 @@ func (db *ContractDB) loadContractFile(path, pkg string) error {
 			}
 			cur = &FuncContract{Key: key, Pkg: pkg, Loops: map[int][]Clause{}, File: path, Line: rc.line, Attrs: map[string]string{}}
 			db.Funcs[key] = cur
+		case "case":
+			if cur == nil {
+				return fail(fmt.Errorf("case outside func"))
+			}
+			top := cur
+			if cur.parent != nil {
+				top = cur.parent
+			}
+			if top.Cases == nil {
+				top.Cases = map[string]*FuncContract{}
+			}
+			sub := &FuncContract{Key: top.Key, Pkg: top.Pkg, Loops: map[int][]Clause{}, File: path, Line: rc.line, Attrs: map[string]string{}, parent: top}
+			top.Cases[rest] = sub
+			cur = sub
 		case "trusted":
 			if cur == nil {
 				return fail(fmt.Errorf("trusted outside func"))
@@ -249,6 +266,18 @@ func (db *ContractDB) loadContractFile(path, pkg string) error {
 				return fail(err)
 			}
 			cur.Loops[n] = append(cur.Loops[n], c)
+		case "foreach":
+			if cur == nil {
+				return fail(fmt.Errorf("foreach outside func"))
+			}
+			body := strings.TrimSpace(strings.TrimPrefix(rest, "invariant"))
+			c := Clause{Src: body, File: path, Line: rc.line}
+			if m := reLabel.FindStringSubmatch(body); m != nil && !strings.HasPrefix(m[2], ":") {
+				c.Label = m[1]
+				c.Src = m[2]
+			}
+			// parsed at instantiation time
+			cur.Foreach = append(cur.Foreach, c)
 		case "pure", "pred", "uninterp":
 			m := rePure.FindStringSubmatch(rc.text)
 			if m == nil {
@@ -351,7 +380,7 @@ func (db *ContractDB) loadRepoContracts(root, module string) error {
 		if info.IsDir() && (info.Name() == ".git" || info.Name() == "testdata") {
 			return filepath.SkipDir
 		}
-		if !info.IsDir() && strings.HasPrefix(info.Name(), "verif_contracts") && strings.HasSuffix(info.Name(), ".go") {
+		if !info.IsDir() && strings.HasPrefix(info.Name(), "verif_") && strings.HasSuffix(info.Name(), ".go") {
 			files = append(files, p)
 		}
 		return nil
